@@ -1,11 +1,14 @@
 """sched_runner.py — subprocess entry: run histories against the implementation, dump observations."""
 import json
+import resource
 import sys
 
 from harness.sched_impl import run_history
 
 
 def main() -> int:
+    resource.setrlimit(resource.RLIMIT_AS, (6 << 30, 6 << 30))
+    sys.setrecursionlimit(400)
     inp, outp, nofail = sys.argv[1], sys.argv[2], sys.argv[3] == '1'
     cases = json.load(open(inp))
     out = []
